@@ -6,7 +6,7 @@ sys.path.insert(0, os.path.join(os.path.dirname(os.path.abspath(__file__)), ".."
 import engine_check  # noqa: E402
 import monitors_engine as M  # noqa: E402
 
-LEAN_MODULES = ["KmipModel.Props.C08"]
+LEAN_MODULES = ["KmipModel.Props.C08", "KmipModel.Props.C08Twin"]
 RULE = ("batches of 1..6 items mixing succeeding and failing operations, with/without batch item IDs, "
         "Stop/Continue/Undo, over random stores; templates carry, with probability 0.3, an attribute that is only "
         "refused when it is set on the object (a handler failing late, after it may have touched the session); patterns [fail X on o; succeed Y; read o] arise from the generator's "
